@@ -212,7 +212,8 @@ public:
 			return;
 		}
 		time_t timeout;
-		int toffset;
+		// the deadline is an absolute time: it does not fit into an int after January 2038
+		int64_t toffset;
 		std::string sid(data_in_.begin(),data_in_.end());
 		if(!sessions_->load(sid,timeout,data_out_) || (toffset=(timeout)) < 0) {
 			hout_.opcode=opcodes::no_data;
